@@ -102,3 +102,13 @@ func VerifSetReadBufSize(n int) (old int) {
 	readBufSize = n
 	return old
 }
+
+// VerifEncodeValue exposes the record encoding of ruggedPersistence.
+func VerifEncodeValue(packet net.Buffers, seqNo uint64) net.Buffers {
+	return encodeValue(packet, seqNo)
+}
+
+// VerifDecodeValue exposes the record decoding of ruggedPersistence.
+func VerifDecodeValue(buf []byte) (packet []byte, seqNo uint64, err error) {
+	return decodeValue(buf)
+}
